@@ -359,6 +359,7 @@ def binopL (c : ECfg) (L : Lim) (op : BinOp) (x y : ObjL) : RL ObjL :=
   | .ctx _, _ | _, .ctx _ =>
     match op with
     | .eq | .ne => .error (.base .outOfDomain)
+    | .lt | .le | .gt | .ge => .error (.base .outOfDomain)
     | _ => .error (.base .noFunction)
   | x, y =>
     if isLazyL x || isLazyL y then .error (.base .outOfDomain)
